@@ -228,9 +228,59 @@ fn g_number(src: &mut Src, obs: &mut Obs) -> CaseResult {
 }
 
 /// whole-table checks: status codes, permission bits, pairwise distinctness
+/// The identifiers inside the lists that carry them: a spelling is the same identifier on its
+/// second occurrence and next to any other entry (GetInfo versions / extensions / transports;
+/// attestationFormatsPreference of MakeCredential and GetAssertion).
+fn lists_in_context(obs: &mut Obs) -> CaseResult {
+    use ctap_types::ctap2::get_info;
+    let kt = |k: i64, v: Value| (Value::int(k), v);
+    for (key, (name, spellings)) in [(1i64, STRING_ENUMS[0]), (2, STRING_ENUMS[1]), (9, STRING_ENUMS[2])] {
+        for a in spellings.iter() {
+            for b in spellings.iter() {
+                for third in [None, Some(*a)] {
+                    let mut list = vec![Value::text(a), Value::text(b)];
+                    if let Some(t) = third {
+                        list.push(Value::text(t));
+                    }
+                    let mut m = vec![kt(1, Value::Array(vec![Value::text("FIDO_2_0")])), kt(3, Value::Bytes(vec![0; 16]))];
+                    m.retain(|(k, _)| *k != Value::int(key));
+                    m.push(kt(key, Value::Array(list.clone())));
+                    let enc = refcbor::encode_canonical(&Value::Map(m));
+                    obs.sub_evals += 1;
+                    let got: Result<get_info::Response, _> = cbor_deserialize(&enc);
+                    let rendered: Option<Vec<String>> = got.as_ref().ok().map(|r| match key {
+                        1 => r.versions.iter().map(|v| <&str>::from(*v).to_string()).collect(),
+                        2 => r.extensions.as_ref().map(|x| x.iter().map(|v| <&str>::from(*v).to_string()).collect()).unwrap_or_default(),
+                        _ => r.transports.as_ref().map(|x| x.iter().map(|v| <&str>::from(*v).to_string()).collect()).unwrap_or_default(),
+                    });
+                    let want: Vec<String> = list.iter().map(|v| v.as_str().unwrap().to_string()).collect();
+                    if rendered.as_ref() != Some(&want) {
+                        return Err(Fail::new(
+                            format!("C18:{}:in-list:{}", name, if a == b { "repeated" } else { "mixed" }),
+                            format!("GetInfo member {} = {:?} decoded to {:?}", key, want, rendered),
+                            json!({"input_hex": hex(&enc)}),
+                        ));
+                    }
+                }
+            }
+        }
+    }
+    // attestation formats: the platform's list (known formats in order, first two; flag for others)
+    for list in [vec!["none", "none"], vec!["packed", "packed"], vec!["none", "packed", "none"], vec!["packed", "none", "packed", "none"], vec!["none"], vec!["packed", "none"]] {
+        let v = Value::Array(list.iter().map(|x| Value::text(x)).collect());
+        obs.sub_evals += 1;
+        crate::props::c14::check_formats_list(&v, obs).map_err(|mut f| {
+            f.sig = format!("C18:AttestationStatementFormat:in-list:{}", f.sig);
+            f
+        })?;
+    }
+    Ok(())
+}
+
 fn g_tables(_src: &mut Src, obs: &mut Obs) -> CaseResult {
     obs.label("tables");
     obs.nontrivial(&[b"tables"]);
+    lists_in_context(obs)?;
     let status: [(Error, u8, &str); 58] = [
         (Error::Success, 0x00, "CTAP2_OK"),
         (Error::InvalidCommand, 0x01, "CTAP1_ERR_INVALID_COMMAND"),
@@ -500,7 +550,7 @@ pub fn crossovers() -> Vec<String> {
     out.into_iter().collect()
 }
 
-pub const RULE: &str = "Exhaustive for every table. Every probed string is additionally presented to the decoder as a byte string, a one-element array, a tagged text and a text with a non-minimal length prefix (all must be rejected). Cross-combinations of two valid spellings (concatenation, spelling + every suffix of another, prefix + spelling, prefix/suffix cross-overs) are presented to every string enumeration as well. String enumerations (Version, Extension, Transport, AttestationStatementFormat): every valid spelling of every enumeration is presented to every enumeration, together with every single-character deletion, substitution and insertion over [A-Za-z0-9_-], every case change, every proper prefix, one-character extensions, padded and NUL-terminated variants and the empty string - accepted iff the string is a valid spelling of THAT enumeration - through TryFrom<&str>/From and through cbor_deserialize/cbor_serialize; plus proptest random strings. Numeric enumerations (PinV1Subcommand, Subcommand, CredentialProtectionPolicy, ControlByte): all 256 byte values through TryFrom<u8> where it exists and through the decoder, integers at every head-width threshold up to 2^64-1, and negative integers. One whole-table case: `as u8` of every named status against the CTAP status table, permission bits, the spelling / number of every variant, pairwise distinct codes. Oracle: the specification tables in the harness. Every probe is a distinct (table, value) pair.";
+pub const RULE: &str = "Exhaustive for every table. Every pair (and triple with a repeat) of valid spellings is also decoded inside the list members that carry them (GetInfo versions / extensions / transports, attestationFormatsPreference): each occurrence must be recognised as the identifier it spells. Every probed string is additionally presented to the decoder as a byte string, a one-element array, a tagged text and a text with a non-minimal length prefix (all must be rejected). Cross-combinations of two valid spellings (concatenation, spelling + every suffix of another, prefix + spelling, prefix/suffix cross-overs) are presented to every string enumeration as well. String enumerations (Version, Extension, Transport, AttestationStatementFormat): every valid spelling of every enumeration is presented to every enumeration, together with every single-character deletion, substitution and insertion over [A-Za-z0-9_-], every case change, every proper prefix, one-character extensions, padded and NUL-terminated variants and the empty string - accepted iff the string is a valid spelling of THAT enumeration - through TryFrom<&str>/From and through cbor_deserialize/cbor_serialize; plus proptest random strings. Numeric enumerations (PinV1Subcommand, Subcommand, CredentialProtectionPolicy, ControlByte): all 256 byte values through TryFrom<u8> where it exists and through the decoder, integers at every head-width threshold up to 2^64-1, and negative integers. One whole-table case: `as u8` of every named status against the CTAP status table, permission bits, the spelling / number of every variant, pairwise distinct codes. Oracle: the specification tables in the harness. Every probe is a distinct (table, value) pair.";
 pub const ASSUMPTIONS: &[&str] = &["identifier tables transcribed from CTAP 2.1 (sections 6.4, 6.5.5, 6.8, 8.2) and the U2F raw message format"];
 
 pub fn run(ctx: &mut Ctx) {
